@@ -287,6 +287,13 @@ def run(world, rep, tier, only=None):
             rep.ob("C18.f", site(cfx, "%s accounting rolled back on every failure after it" % what), not leak,
                    "error returns after %s(+1) without %s(-1): %s" % (callee, callee, leak[:2]))
 
+    # ------------------------------------------------------------------ C18.g expansion of an inline file keeps its length (shared with C09.s)
+    # do_write_internal() sets i_size ahead of the data and, on an inline_data file system, marks the file inline; the
+    # first chunk that does not fit expands it.  The expansion must not change the size, or a file ending in a hole
+    # comes out shorter than its source.
+    from rules import C09
+    C09.expand_keeps_size(prog, rep, "C18.g")
+
     # ------------------------------------------------------------------ C18.w offset width
     fns = [f for f in prog.functions() if f.file in (CI, "misc/create_inode_libarchive.c", "misc/mk_hugefiles.c")] + \
           [f for f in dbg.functions() if f.file in (DUMP, "debugfs/debugfs.c", "debugfs/filefrag.c")]
